@@ -289,3 +289,30 @@ package route
 //@   property C14
 //@   modifies *
 //@   ensures[usable; C14] err == nil ==> typeIs(r, *KafkaMdm) && as(r, *KafkaMdm).flushMaxWait > 0 && as(r, *KafkaMdm).flushMaxNum >= 0 && as(r, *KafkaMdm).buf != nil && usableSchemas(as(r, *KafkaMdm).schemas)
+
+// ---------------------------------------------------------------- grafanaNet: address validation and documented defaults (C14, C20)
+// facts about the two literal suffixes (true of strings; assumed, listed in the evidence)
+//@ axiom suffix_len: (assert (forall ((s Bytes) (t Bytes)) (! (=> (bhasSuffix s t) (>= (blen s) (blen t))) :pattern ((bhasSuffix s t)))))
+//@ axiom suffix_metrics_slash: (assert (forall ((s Bytes)) (! (=> (bhasSuffix s (blit "/metrics/")) (and (bhasSuffix s (blit "/")) (bhasSuffix (bsub s 0 (- (blen s) 1)) (blit "/metrics")))) :pattern ((bhasSuffix s (blit "/metrics/"))))))
+//@ axiom suffix_metrics_noslash: (assert (forall ((s Bytes)) (! (=> (bhasSuffix s (blit "/metrics")) (not (bhasSuffix s (blit "/")))) :pattern ((bhasSuffix s (blit "/metrics"))))))
+//@ spec metricsEndpoint(a bytes) bool := bhasSuffix(a, "/metrics") || bhasSuffix(a, "/metrics/")
+//@ func NewGrafanaNetConfig(addr string, apiKey string, schemasFile string, aggregationFile string) (c GrafanaNetConfig, err error)
+//@   property C14,C20
+//@   modifies *
+//@   ensures[address_usable; C14] err == nil ==> metricsEndpoint(addr) && c.Addr == addr
+//@   ensures[required_options; C20] err == nil ==> c.ApiKey == apiKey && c.SchemasFile == schemasFile && c.AggregationFile == aggregationFile && apiKey != "" && schemasFile != "" && aggregationFile != ""
+//@   ensures[documented_defaults; C20] err == nil ==> c.BufSize == 10000000 && c.FlushMaxNum == 5000 && c.FlushMaxWait == 500000000 && c.Timeout == 10000000000 && c.Concurrency == 100 && c.OrgID == 1
+//@        && c.SSLVerify && !c.Blocking && !c.Spool && c.ErrBackoffMin == 100000000
+//@
+//@ func getGrafanaNetAddr(addr string) (string, string, string)
+//@   property C14
+//@   requires metricsEndpoint(addr)
+//@
+//@ // NewGrafanaNet: built from a validated configuration; its own checks cover the divisor and the buffer size
+//@ func NewGrafanaNet(key string, matcher matcher.Matcher, cfg GrafanaNetConfig) (r Route, err error)
+//@   property C14
+//@   requires metricsEndpoint(cfg.Addr)
+//@   modifies *
+//@   ensures[usable; C14] err == nil ==> r != nil
+//@   loop 1:
+//@     invariant[shards] 0 <= i && i <= cfg.Concurrency && cfg.Concurrency > 0 && cfg.BufSize >= 0 && r != nil && len(r.in) == cfg.Concurrency && r.wg != nil && r.shutdown != nil
